@@ -140,3 +140,55 @@ fn c16_ipnet_contains_v6() {
     kani::cover!(!r, "not contained");
     kani::cover!(true, "harness end reachable");
 }
+
+// ------------------------------------------------------------------------------------------ C03: per-family NLRI decoders
+
+/// One NLRI of the given family out of up to N symbolic bytes: never panics; Ok ==> at least one byte was consumed
+/// and the reader stays inside the buffer (this is what makes decode_nlri_list terminate).  BOUNDED: N bytes.
+fn nlri_decode_one(family: Family, n_max: usize, data: &[u8; 40]) {
+    let len: usize = kani::any();
+    kani::assume(len <= n_max);
+    let mut reader = BgpReader::<UpdateCtx>::new(&data[..len]);
+    let rest = reader.remaining_len();
+    let addpath: bool = kani::any();
+    let is_reach: bool = kani::any();
+    match PeerCodec::decode_nlri(family, addpath, is_reach, &mut reader, rest) {
+        Ok(n) => {
+            assert!(reader.pos > 0, "C03.nlri.decoded_entry_consumes_input");
+            assert!(reader.pos <= len, "C03.nlri.reader_stays_inside_buffer");
+            core::mem::forget(n);
+            kani::cover!(true, "an NLRI is decoded");
+        }
+        Err(e) => {
+            assert!(reader.pos <= len, "C03.nlri.reader_stays_inside_buffer");
+            core::mem::forget(e);
+        }
+    }
+    kani::cover!(true, "harness end reachable");
+}
+
+macro_rules! nlri_harness {
+    ($name:ident, $fam:expr, $n:expr, $unw:expr) => {
+        #[kani::proof]
+        #[kani::unwind($unw)]
+        #[kani::stub(alloc::fmt::format, stub_format)]
+        fn $name() {
+            let data: [u8; 40] = kani::any();
+            nlri_decode_one($fam, $n, &data);
+        }
+    };
+}
+
+nlri_harness!(c03_nlri_ipv4, Family::IPV4, 12, 14);
+nlri_harness!(c03_nlri_ipv6, Family::IPV6, 24, 26);
+nlri_harness!(c03_nlri_vpnv4, Family::IPV4_VPN, 24, 26);
+nlri_harness!(c03_nlri_vpnv6, Family::IPV6_VPN, 36, 38);
+nlri_harness!(c03_nlri_mplsv4, Family::IPV4_MPLS, 20, 22);
+nlri_harness!(c03_nlri_mplsv6, Family::IPV6_MPLS, 32, 34);
+nlri_harness!(c03_nlri_mupv4, Family::IPV4_MUP, 32, 34);
+nlri_harness!(c03_nlri_flowspecv4, Family::IPV4_FLOWSPEC, 20, 22);
+nlri_harness!(c03_nlri_flowspecv6, Family::IPV6_FLOWSPEC, 24, 26);
+nlri_harness!(c03_nlri_ls, Family::LS, 32, 34);
+nlri_harness!(c03_nlri_srpolicyv4, Family::IPV4_SRPOLICY, 24, 26);
+nlri_harness!(c03_nlri_evpn, Family::L2VPN_EVPN, 40, 42);
+nlri_harness!(c03_nlri_rtc, Family::RTC, 16, 18);
